@@ -191,6 +191,18 @@ func (c *ErrCase) ID() string {
 	if sub, ok := c.Files["/sub"]; ok {
 		id += fmt.Sprintf(" sub=%q", sub)
 	}
+	if strings.HasPrefix(c.Kind, "comp") {
+		var ks []string
+		for k := range c.Files {
+			if k != "/main" && k != "/sub" {
+				ks = append(ks, k)
+			}
+		}
+		sortStrings(ks)
+		for _, k := range ks {
+			id += fmt.Sprintf(" %s=%q", k, c.Files[k])
+		}
+	}
 	return id
 }
 
@@ -322,39 +334,42 @@ func blk(toks ...string) piece { return piece{toks: append(append([]string{"{%"}
 
 func corpus() map[string][]piece {
 	return map[string][]piece{
-		"var":        {tx("x"), vr("a", "|", "add", ":", "1"), tx("y")},
-		"var-path":   {vr("m", ".", "k"), vr("l", ".", "0"), vr("f", "(", "a", ")")},
-		"var-str":    {vr(`"s\"q"`, "|", "upper"), vr("'t'")},
-		"expr":       {vr("a", "+", "2", "*", "(", "a", "-", "1", ")"), vr("a", "==", "1", "and", "not", "b")},
-		"if":         {blk("if", "a", ">", "0"), tx("p"), blk("elif", "b"), tx("q"), blk("else"), tx("r"), blk("endif")},
-		"for":        {blk("for", "i", "in", "l"), vr("i"), blk("empty"), tx("e"), blk("endfor")},
-		"for-kv":     {blk("for", "k", ",", "v", "in", "m", "sorted"), vr("k"), blk("endfor")},
-		"with":       {blk("with", "z", "=", "a"), vr("z"), blk("endwith")},
-		"set":        {blk("set", "z", "=", "a", "+", "1"), vr("z")},
-		"macro":      {blk("macro", "mm", "(", "p", ",", "q", "=", "2", ")"), vr("p"), blk("endmacro"), vr("mm", "(", "1", ")")},
-		"filter":     {blk("filter", "upper", "|", "cut", ":", `"A"`), tx("abc"), blk("endfilter")},
-		"firstof":    {blk("firstof", "b", "a", `"d"`)},
-		"cycle":      {blk("for", "i", "in", "l"), blk("cycle", `"x"`, `"y"`, "as", "c", "silent"), blk("endfor")},
-		"ifchanged":  {blk("for", "i", "in", "l"), blk("ifchanged", "i"), tx("c"), blk("else"), tx("s"), blk("endifchanged"), blk("endfor")},
-		"ifequal":    {blk("ifequal", "a", "1"), tx("e"), blk("else"), tx("n"), blk("endifequal")},
-		"include":    {blk("include", `"inc"`, "with", "z", "=", "a", "only")},
-		"include-l":  {blk("include", "b", "if_exists")},
-		"import":     {blk("import", `"lib"`, "mac", "as", "mm"), vr("mm", "(", "1", ")")},
-		"ssi":        {blk("ssi", `"inc"`, "parsed")},
-		"block":      {blk("block", "bb"), tx("t"), vr("block", ".", "Super"), blk("endblock", "bb")},
-		"extends":    {blk("extends", `"base"`), blk("block", "c"), tx("t"), blk("endblock")},
-		"autoescape": {blk("autoescape", "off"), vr("b"), blk("endautoescape")},
-		"spaceless":  {blk("spaceless"), tx("<a> </a>"), blk("endspaceless")},
+		"var":         {tx("x"), vr("a", "|", "add", ":", "1"), tx("y")},
+		"var-path":    {vr("m", ".", "k"), vr("l", ".", "0"), vr("f", "(", "a", ")")},
+		"var-str":     {vr(`"s\"q"`, "|", "upper"), vr("'t'")},
+		"expr":        {vr("a", "+", "2", "*", "(", "a", "-", "1", ")"), vr("a", "==", "1", "and", "not", "b")},
+		"if":          {blk("if", "a", ">", "0"), tx("p"), blk("elif", "b"), tx("q"), blk("else"), tx("r"), blk("endif")},
+		"for":         {blk("for", "i", "in", "l"), vr("i"), blk("empty"), tx("e"), blk("endfor")},
+		"for-kv":      {blk("for", "k", ",", "v", "in", "m", "sorted"), vr("k"), blk("endfor")},
+		"with":        {blk("with", "z", "=", "a"), vr("z"), blk("endwith")},
+		"set":         {blk("set", "z", "=", "a", "+", "1"), vr("z")},
+		"macro":       {blk("macro", "mm", "(", "p", ",", "q", "=", "2", ")"), vr("p"), blk("endmacro"), vr("mm", "(", "1", ")")},
+		"filter":      {blk("filter", "upper", "|", "cut", ":", `"A"`), tx("abc"), blk("endfilter")},
+		"firstof":     {blk("firstof", "b", "a", `"d"`)},
+		"cycle":       {blk("for", "i", "in", "l"), blk("cycle", `"x"`, `"y"`, "as", "c", "silent"), blk("endfor")},
+		"ifchanged":   {blk("for", "i", "in", "l"), blk("ifchanged", "i"), tx("c"), blk("else"), tx("s"), blk("endifchanged"), blk("endfor")},
+		"ifequal":     {blk("ifequal", "a", "1"), tx("e"), blk("else"), tx("n"), blk("endifequal")},
+		"include":     {blk("include", `"inc"`, "with", "z", "=", "a", "only")},
+		"include-l":   {blk("include", "b", "if_exists")},
+		"import":      {blk("import", `"lib"`, "mac", "as", "mm"), vr("mm", "(", "1", ")")},
+		"ssi":         {blk("ssi", `"inc"`, "parsed")},
+		"block":       {blk("block", "bb"), tx("t"), vr("block", ".", "Super"), blk("endblock", "bb")},
+		"extends":     {blk("extends", `"base"`), blk("block", "c"), tx("t"), blk("endblock")},
+		"autoescape":  {blk("autoescape", "off"), vr("b"), blk("endautoescape")},
+		"spaceless":   {blk("spaceless"), tx("<a> </a>"), blk("endspaceless")},
 		"templatetag": {blk("templatetag", "openblock")},
-		"widthratio": {blk("widthratio", "a", "2", "100", "as", "w"), vr("w")},
-		"now":        {blk("now", `"2006"`, "fake")},
-		"lorem":      {blk("lorem", "2", "w")},
-		"comment":    {blk("comment"), tx("c"), blk("endcomment"), vr("a")},
-		"exec-err":   {tx("x"), vr("fail", "(", ")"), tx("y")},
-		"exec-div":   {tx("x\n"), vr("a", "/", "0")},
-		"exec-call":  {vr("f", "(", `"s"`, ")")},
-		"exec-index": {vr("a", ".", "x")},
-		"trim":       {tx("x "), piece{toks: []string{"{{-", "a", "-}}"}}, tx(" y"), piece{toks: []string{"{%-", "if", "a", "-%}"}}, tx("z"), blk("endif")},
+		"widthratio":  {blk("widthratio", "a", "2", "100", "as", "w"), vr("w")},
+		"now":         {blk("now", `"2006"`, "fake")},
+		"lorem":       {blk("lorem", "2", "w")},
+		"comment":     {blk("comment"), tx("c"), blk("endcomment"), vr("a")},
+		"exec-err":    {tx("x"), vr("fail", "(", ")"), tx("y")},
+		"exec-div":    {tx("x\n"), vr("a", "/", "0")},
+		"exec-call":   {vr("f", "(", `"s"`, ")")},
+		"exec-index":  {vr("a", ".", "x")},
+		"exec-filter": {tx("x"), vr("b", "|", "pluralize"), tx("y")},
+		"exec-slice":  {tx("x\n"), blk("if", "a"), vr("l", "|", "slice", ":", `"x"`), blk("endif")},
+		"exec-date":   {vr("a", "|", "date", ":", `"2006"`)},
+		"trim":        {tx("x "), piece{toks: []string{"{{-", "a", "-}}"}}, tx(" y"), piece{toks: []string{"{%-", "if", "a", "-%}"}}, tx("z"), blk("endif")},
 	}
 }
 
@@ -509,6 +524,29 @@ func run(r *eng.Runner) {
 		for _, ref := range []string{`{% include "sub" %}`, `{% include b_sub %}`, `{% extends "sub" %}`, `{% import "sub" mac %}`, `{% ssi "sub" parsed %}`, "pre\n{% include \"sub\" %}"} {
 			files := map[string]string{"/main": ref, "/sub": bsrc}
 			r.Do(&ErrCase{Files: files, Kind: "sub"})
+		}
+	}
+	// execution failures inside a composition: the error must name the file the failing construct is written in
+	r.Group("error-in-composition", "c16.err", "a construct that fails at execution time, written in: the overriding block of a child (1 and 2 levels), a block of a base or middle template that is not overridden, a parent block reached through block.Super, an imported macro, a locally defined macro, an included file that itself extends; x layouts in front of it")
+	fails := []string{"{{ fail() }}", "{{ a/0 }}", "{{ f(\"s\") }}", "{{ b|pluralize }}", "{% include b_nofile %}", "{{ a.x.y }}", "{% widthratio a 0 0 %}", "{% for i in l %}{{ fail() }}{% endfor %}", "{% if a %}{{ l|slice:\"x\" }}{% endif %}"}
+	lays := []string{"", "\n  ", "é\n\n"}
+	for _, f := range fails {
+		for _, lay := range lays {
+			F := lay + f
+			comps := []map[string]string{
+				{"/main": "{% extends \"base\" %}\n{% block c %}" + F + "{% endblock %}", "/base": "B\n\n\n[{% block c %}b{% endblock %}]"},
+				{"/main": "{% extends \"base\" %}{% block d %}x{% endblock %}", "/base": "B\n[{% block c %}" + F + "{% endblock %}]{% block d %}{% endblock %}"},
+				{"/main": "{% extends \"base\" %}\n\n{% block c %}<{{ block.Super }}>{% endblock %}", "/base": "B[{% block c %}" + F + "{% endblock %}]"},
+				{"/main": "{% extends \"mid\" %}\n{% block c %}" + F + "{% endblock %}", "/mid": "{% extends \"base\" %}{% block d %}m{% endblock %}", "/base": "B[{% block c %}b{% endblock %}{% block d %}{% endblock %}]"},
+				{"/main": "{% extends \"mid\" %}\n{% block c %}ok{% endblock %}", "/mid": "\n\n{% extends \"base\" %}{% block d %}" + F + "{% endblock %}", "/base": "B[{% block c %}b{% endblock %}{% block d %}{% endblock %}]"},
+				{"/main": "x\n{% import \"lib\" mac %}{{ mac(1) }}", "/lib": "{% macro mac(p) export %}" + F + "{% endmacro %}"},
+				{"/main": "{% macro mm(p) %}" + F + "{% endmacro %}\n\n{{ mm(1) }}"},
+				{"/main": "x{% include \"sub\" %}", "/sub": "{% extends \"base\" %}{% block c %}" + F + "{% endblock %}", "/base": "B[{% block c %}b{% endblock %}]"},
+				{"/main": "x{% include \"sub\" %}", "/sub": "\n{% import \"lib\" mac %}{{ mac(1) }}", "/lib": "\n\n{% macro mac(p) export %}" + F + "{% endmacro %}"},
+			}
+			for _, files := range comps {
+				r.Do(&ErrCase{Files: files, Kind: "comp"})
+			}
 		}
 	}
 	// load failures
